@@ -3,6 +3,8 @@ package main
 // Stream `piecefunc` (C31).
 
 import (
+	. "verifharness/hlib"
+
 	"bufio"
 	"fmt"
 	"strings"
@@ -11,20 +13,20 @@ import (
 )
 
 func init() {
-	register("piecefunc", &Stream{Gen: genPiecefunc, NewRunner: func() Runner { return &pfRunner{} }})
+	Register("piecefunc", &Stream{Gen: genPiecefunc, NewRunner: func() Runner { return &pfRunner{} }})
 }
 
 type pfRunner struct{ f func(uint64) uint64 }
 
 func (p *pfRunner) Step(line string) string {
-	f := fields(line)
+	f := Fields(line)
 	switch f[0] {
 	case "dots":
 		p.f = nil
 		var dots []piecefunc.Dot
-		for _, s := range splitList(f[1]) {
+		for _, s := range SplitList(f[1]) {
 			xy := strings.Split(s, ":")
-			dots = append(dots, piecefunc.Dot{X: atou(xy[0]), Y: atou(xy[1])})
+			dots = append(dots, piecefunc.Dot{X: Atou(xy[0]), Y: Atou(xy[1])})
 		}
 		p.f = piecefunc.NewFunc(dots) // may panic
 		return "ok"
@@ -32,7 +34,7 @@ func (p *pfRunner) Step(line string) string {
 		if p.f == nil {
 			return "nofunc"
 		}
-		return fmt.Sprint(p.f(atou(f[1])))
+		return fmt.Sprint(p.f(Atou(f[1])))
 	}
 	return "bad-op"
 }
